@@ -1,4 +1,5 @@
 import Walrus.Module
+import Std.Data.HashMap
 
 /-
 M13: an executable semantics of the wasm modules the models talk about (`ModuleM`): structured
@@ -12,8 +13,9 @@ the observation the properties speak of (results, traps, host-call trace, export
   replaces an operand or operator does not.  Vector and atomic operators are `unsup`.
 * Host functions are deterministic functions of their import name and arguments, and every call is
   appended to the trace.  A host never re-enters the instance or touches its memory.
-* Gas is consumed by calls and by loop back-edges only, never by straight-line instructions, so that
-  removing instructions that are not executed cannot change when gas runs out.
+* Gas is consumed by calls and by loop back-edges only (one unit each, counted globally in
+  `Store.fuel` for one export call), never by straight-line instructions, so that removing
+  instructions that are not executed cannot change when gas runs out.
 
 Recursion: the tree of one function body is walked by structural recursion (`execI`/`execL`); calls
 and loop re-entries go through a `Rec` record built by recursion on the gas (`mkRec`).
@@ -129,7 +131,7 @@ structure Mem where
   max : Option Nat
   pageSize : Nat
   is64 : Bool
-  bytes : List (Nat × Nat)        -- sparse, most recent write first; unwritten = 0
+  bytes : Std.HashMap Nat Nat     -- sparse; unwritten = 0
 
 structure Tab where
   elems : List V
@@ -144,6 +146,7 @@ structure Store where
   datas : List (List Nat)         -- dropped ⇒ []
   elems : List (List V)           -- dropped ⇒ []
   trace : List String             -- host calls, most recent first
+  fuel : Nat := 0                 -- remaining budget of calls and loop back-edges (all of them, globally)
 
 structure St where
   stack : List V
@@ -335,8 +338,7 @@ def pureOp (o : Op) (stack : List V) : Option (Except String (List V)) :=
 
 def Mem.size (m : Mem) : Nat := m.pages * m.pageSize
 
-def Mem.read1 (m : Mem) (a : Nat) : Nat :=
-  match m.bytes.find? (·.1 = a) with | some p => p.2 | none => 0
+def Mem.read1 (m : Mem) (a : Nat) : Nat := m.bytes.getD a 0
 
 def Mem.read (m : Mem) (a : Nat) : Nat → Nat
   | 0 => 0
@@ -344,11 +346,11 @@ def Mem.read (m : Mem) (a : Nat) : Nat → Nat
 
 def Mem.write (m : Mem) (a : Nat) (v : Nat) : Nat → Mem
   | 0 => m
-  | k+1 => ({ m with bytes := (a, v % 256) :: m.bytes } : Mem).write (a + 1) (v / 256) k
+  | k+1 => ({ m with bytes := m.bytes.insert a (v % 256) } : Mem).write (a + 1) (v / 256) k
 
 def Mem.writeBytes (m : Mem) (a : Nat) : List Nat → Mem
   | [] => m
-  | b :: r => ({ m with bytes := (a, b % 256) :: m.bytes } : Mem).writeBytes (a + 1) r
+  | b :: r => ({ m with bytes := m.bytes.insert a (b % 256) } : Mem).writeBytes (a + 1) r
 
 def setAt {α : Type} (l : List α) (i : Nat) (x : α) : List α := l.set i x
 
@@ -686,7 +688,9 @@ def execL (T FS : List Sig) (R : Rec) : SL → St → Out
 end
 
 /-- call of function `f` with the next-lower `Rec` -/
-def callFn (E : Env) (R : Rec) (f : Nat) (args : List V) (st : Store) : CallRes :=
+def callFn (E : Env) (R : Rec) (f : Nat) (args : List V) (st0 : Store) : CallRes :=
+  if st0.fuel = 0 then .oog else
+  let st : Store := { st0 with fuel := st0.fuel - 1 }
   match E.funcs[f]? with
   | none => .unsup "call: no such function"
   | some fi =>
@@ -708,9 +712,12 @@ def callFn (E : Env) (R : Rec) (f : Nat) (args : List V) (st : Store) : CallRes 
 
 def mkRec (E : Env) : Nat → Rec
   | 0 => ⟨fun _ _ _ => .oog, fun _ _ _ => .oog⟩
-  | n+1 => ⟨callFn E (mkRec E n), fun bt b s => execI E.types E.fsigs (mkRec E n) (.loop bt b) s⟩
+  | n+1 => ⟨callFn E (mkRec E n), fun bt b s =>
+      if s.store.fuel = 0 then .oog
+      else execI E.types E.fsigs (mkRec E n) (.loop bt b) { s with store := { s.store with fuel := s.store.fuel - 1 } }⟩
 
 /-- invoke function `f` with `gas` units -/
-def invoke (E : Env) (gas : Nat) : CallFn := (mkRec E (gas + 1)).call
+def invoke (E : Env) (gas : Nat) : CallFn :=
+  fun f args st => (mkRec E (gas + 1)).call f args { st with fuel := gas }
 
 end Walrus.Sem
